@@ -22,6 +22,9 @@ Bounded exhaustive enumeration on the real implementation (no sampling):
     (extends tag inside the wrappers) and all mixtures, the link sitting inside b nested blocks
     of one wrapper kind (if / for / capture / with / block / case / unless / mixed) for every
     b in 0..block_nesting_limit, under the default limits and smaller context_depth_limit values;
+    RL: the include/render/extends cycles again over loaders whose template path or name spelling
+    differs from the name written in the tag (FileSystemLoader, CachingFileSystemLoader on a temp
+    directory, names spelled './x'), sync and async;
     D: non-recursive nesting at limit-1, limit, limit+1.
     Oracle: outcome in {output, ContextDepthError, TemplateInheritanceError, other LiquidError};
     RecursionError (raw, or as the cause of a LiquidError, or swallowed in LAX mode and seen by
@@ -33,7 +36,10 @@ Bounded exhaustive enumeration on the real implementation (no sampling):
 from __future__ import annotations
 
 import itertools
+import os
+import shutil
 import sys
+import tempfile
 import warnings
 from typing import Any
 from typing import Iterator
@@ -370,12 +376,33 @@ def links_label(kinds: tuple[str, ...]) -> str:
     return "+".join(sorted({GEN.SIG_KIND.get(k, k) for k in kinds}))
 
 
+def run_on_private_loop(coro: Any) -> Any:
+    import asyncio
+
+    loop = asyncio.new_event_loop()
+    try:
+        return loop.run_until_complete(coro)
+    finally:
+        loop.close()
+
+
 def run_render_case(templates: dict[str, str], limits: dict[str, int], mode: str, api: str,
                     loader_kind: str = "dict", start: str = "t0",
-                    backstop_s: float = RENDER_BACKSTOP_S) -> dict[str, Any]:
+                    backstop_s: float = RENDER_BACKSTOP_S, fsdir: Optional[str] = None) -> dict[str, Any]:
     """Parse + render t0 on the case thread at a fixed frame depth; classify the outcome."""
     env = get_env(mode, limits)
-    loader: Any = (MON.CountingCachingLoader if loader_kind == "caching" else MON.CountingLoader)(dict(templates))
+    loader: Any
+    if loader_kind in ("fs", "cachingfs"):
+        # real files: a template's ``path`` is then <search path>/<name>, not the name written in the tag
+        assert fsdir is not None
+        for name, text in templates.items():
+            with open(os.path.join(fsdir, name), "w", encoding="utf-8") as fd:
+                fd.write(text)
+        loader = (MON.CountingFileSystemLoader if loader_kind == "fs" else MON.CountingCachingFileSystemLoader)(fsdir)
+    elif loader_kind == "caching":
+        loader = MON.CountingCachingLoader(dict(templates))
+    else:
+        loader = MON.CountingLoader(dict(templates))
     ctx_limit = limits.get("context_depth_limit", 30)
     loader.budget = LOAD_C * (ctx_limit + 10)
     env.loader = loader
@@ -384,11 +411,18 @@ def run_render_case(templates: dict[str, str], limits: dict[str, int], mode: str
     def body() -> dict[str, Any]:
         depth = MON.frame_depth()
         try:
-            tpl = env.get_template(start)
             if api == "sync":
-                out = tpl.render(**GEN.DATA)
+                out = env.get_template(start).render(**GEN.DATA)
+            elif loader_kind in ("fs", "cachingfs"):
+                # file-system loaders read through run_in_executor: a real (private, per-case) event loop;
+                # the start template is loaded through the async API too
+                async def go() -> str:
+                    t = await env.get_template_async(start)
+                    return await t.render_async(**GEN.DATA)
+
+                out = run_on_private_loop(go())
             else:
-                out = U.run_coro(tpl.render_async(**GEN.DATA))
+                out = U.run_coro(env.get_template(start).render_async(**GEN.DATA))
             return {"kind": "ok", "len": len(out), "depth": depth}
         except MON.StepBudgetExceeded as e:
             return {"kind": "budget", "detail": e.detail, "depth": depth}
@@ -464,6 +498,14 @@ def judge_render(res: Result, r: dict[str, Any], sig_base: dict[str, Any], case:
 # ---------------------------------------------------------------------------
 # the check
 # ---------------------------------------------------------------------------
+LOADER_KINDS = ("extends", "include", "render")
+LOADER_B = (0, 3, 29)
+
+
+def loader_family_list() -> list[tuple[str, ...]]:
+    return [c for n in (1, 2, 3) for c in GEN.all_cycles(LOADER_KINDS, n)]
+
+
 def family_list(tier: str) -> list[tuple[str, ...]]:
     core = GEN.LINK_KINDS_CORE
     allk = core + GEN.LINK_KINDS_MORE
@@ -575,6 +617,11 @@ class C09(Check):
                       "with the if wrapper" if q
             else "caching loader everywhere; non-caching DictLoader additionally for n=1 and for n=2 with if/mixed wrappers",
             "entry_from_outside_the_cycle": "n<=2, b in {0,2,30}, sync+async" + (", if wrapper" if q else ", all wrappers"),
+            "loader_families": f"cycles of 1..3 over {list(LOADER_KINDS)} ({len(loader_family_list())} families) x "
+                               + ("if wrapper x b in " + str(list(LOADER_B)) + " (n=3: first and last)" if q else
+                                  "if/mixed wrappers x every b in 0..30 (n=3: b in " + str(list(LOADER_B)) + ")")
+                               + " x {FileSystemLoader, CachingFileSystemLoader on a temp dir, names spelled './x' with "
+                                 "DictLoader and FileSystemLoader} x {sync, async}; n<=2 also entered from outside the cycle",
             "recursion_limit": RECURSION_LIMIT,
             "entry_frame_depth": MON.ENTRY_DEPTH + 1,
         }
@@ -608,6 +655,8 @@ class C09(Check):
             else:
                 for w in GEN.WRAPPER_KINDS:
                     sh.append(("R", kinds, w))
+        for kinds in loader_family_list():
+            sh.append(("RL", kinds))
         sh.append(("R1",))
         for w in GEN.WRAPPER_KINDS:
             sh.append(("D", w))
@@ -640,6 +689,9 @@ class C09(Check):
         elif kind == "R":
             MON.uninstall_stream_monitor()
             self.run_family(res, tier, tuple(shard[1]), shard[2])
+        elif kind == "RL":
+            MON.uninstall_stream_monitor()
+            self.run_loader_family(res, tier, tuple(shard[1]))
         elif kind == "R1":
             MON.uninstall_stream_monitor()
             self.run_selfcall(res, tier)
@@ -768,6 +820,49 @@ class C09(Check):
                     for api in ("sync", "async"):
                         self.one_render(res, "R", kinds, links, w, b, tailed, {}, "strict", api, "caching", start="e")
 
+    def run_loader_family(self, res: Result, tier: str, kinds: tuple[str, ...]) -> None:
+        """The recursive cycles again, over loaders whose template ``path`` / name spelling differs from
+        the name written in the tag: FileSystemLoader and CachingFileSystemLoader on a per-shard temp
+        directory, and a DictLoader whose names are spelled './x'.  Sync and async; also entered from a
+        template outside the cycle (n <= 2)."""
+        links = links_label(kinds)
+        q = tier == "quick"
+        depths = (LOADER_B[0], LOADER_B[-1]) if (q and len(kinds) == 3) else (
+            LOADER_B if (q or len(kinds) == 3) else tuple(range(0, 31)))
+        wrappers = ("if",) if q else ("if", "mixed")
+        fsdir = tempfile.mkdtemp(prefix="c09_fs_")
+        # the async render of an extends chain over a caching file-system loader leaves an un-awaited
+        # `uptodate` coroutine behind (and reports a LiquidError): C01's concern, not noise for this log
+        warnings.filterwarnings("ignore", category=RuntimeWarning, message="coroutine .* was never awaited")
+        old_hook = sys.unraisablehook
+
+        def quiet_hook(unraisable: Any) -> None:
+            # CPython fails to even issue that warning when the coroutine is collected while a namedtuple
+            # constructor (restricted builtins) is the running frame: "KeyError: '__import__'".  Log noise only.
+            if type(unraisable.object).__name__ == "coroutine" and unraisable.exc_type is KeyError:
+                res.count("unawaited_coroutine_warning_noise_dropped")
+                return
+            old_hook(unraisable)
+
+        sys.unraisablehook = quiet_hook
+        try:
+            for w in wrappers:
+                for b in depths:
+                    variants = [(False, GEN.family_templates(kinds, w, b), "", ("fs", "cachingfs"))]
+                    variants.append((False, GEN.family_templates(kinds, w, b, prefix="./"), "./", ("dict", "fs")))
+                    if len(kinds) <= 2:
+                        variants.append((True, GEN.family_templates(kinds, w, b, tail=True), "", ("fs", "cachingfs")))
+                        variants.append((True, GEN.family_templates(kinds, w, b, tail=True, prefix="./"), "./", ("dict",)))
+                    for tail, templates, prefix, loaders in variants:
+                        start = prefix + ("e" if tail else "t0")
+                        for ld in loaders:
+                            for api in ("sync", "async"):
+                                self.one_render(res, "RL", kinds, links, w, b, templates, {}, "strict", api, ld,
+                                                start=start, fsdir=fsdir)
+        finally:
+            sys.unraisablehook = old_hook
+            shutil.rmtree(fsdir, ignore_errors=True)
+
     def run_selfcall(self, res: Result, tier: str) -> None:
         for w in GEN.WRAPPER_KINDS:
             for b in range(0, 31):
@@ -792,18 +887,18 @@ class C09(Check):
 
     def one_render(self, res: Result, fam: str, kinds: tuple[str, ...], links: str, w: str, b: int,
                    templates: dict[str, str], limits: dict[str, int], mode: str, api: str, ld: str,
-                   start: str = "t0") -> None:
+                   start: str = "t0", fsdir: Optional[str] = None) -> None:
         case = {"phase": "render", "family": fam, "kinds": list(kinds), "wrapper": w, "b": b, "templates": templates,
                 "limits": limits, "mode": mode, "api": api, "loader": ld, "start": start}
         if res.counters.get("render_cases_hit_cpu_backstop", 0) >= MAX_BACKSTOP_HANGS_PER_SHARD:
             # every further hang costs RENDER_BACKSTOP_S of CPU; the shard already fails
             res.count("render_cases_skipped_after_repeated_hangs")
             return
-        r = run_render_case(templates, limits, mode, api, ld, start)
+        r = run_render_case(templates, limits, mode, api, ld, start, fsdir=fsdir)
         if r["kind"] in ("hang", "killed"):
             # only a suspicion: re-run this one case alone in a forked child under a kernel CPU limit
             out, sig = MON.run_isolated(
-                lambda emit: emit(run_render_case(templates, limits, mode, api, ld, start, backstop_s=1e9)))
+                lambda emit: emit(run_render_case(templates, limits, mode, api, ld, start, backstop_s=1e9, fsdir=fsdir)))
             if sig is None and out and out[-1].get("kind") not in ("hang", "killed"):
                 res.count("backstop_spurious")
                 r = out[-1]
@@ -813,6 +908,8 @@ class C09(Check):
         desc = (f"render[{api},{mode},{ld} loader] of {start} in {{{', '.join(f'{k}: {v[:70]!r}' for k, v in templates.items())}}} "
                 f"(links {links}, {b} nested {w} blocks, limits {limits or 'default'})")
         sig = {"phase": "render", "family": fam, "links": links, "wrapper": w}
+        if fam == "RL":
+            sig["loader"] = ld
         label = judge_render(res, r, sig, case, desc)
         nontrivial = r.get("loads", 0) >= 2 or (fam == "D" and label == "output")
         res.case(nontrivial=[fam, kinds, w, b, limits, mode, api, ld, start] if nontrivial else None,
@@ -840,10 +937,16 @@ class C09(Check):
         else:
             MON.uninstall_stream_monitor()
             kinds = tuple(case["kinds"])
-            links = case.get("links") or (links_label(kinds) if case["family"] == "R" else
+            links = case.get("links") or (links_label(kinds) if case["family"] in ("R", "RL") else
                                            ("selfcall" if case["family"] == "R1" else "nesting:" + kinds[0]))
-            self.one_render(res, case["family"], kinds, links, case["wrapper"], case["b"], case["templates"],
-                            case["limits"], case["mode"], case["api"], case.get("loader", "dict"), case.get("start", "t0"))
+            fsdir = tempfile.mkdtemp(prefix="c09_fs_") if case.get("loader") in ("fs", "cachingfs") else None
+            try:
+                self.one_render(res, case["family"], kinds, links, case["wrapper"], case["b"], case["templates"],
+                                case["limits"], case["mode"], case["api"], case.get("loader", "dict"),
+                                case.get("start", "t0"), fsdir=fsdir)
+            finally:
+                if fsdir:
+                    shutil.rmtree(fsdir, ignore_errors=True)
         return res.violations
 
 
